@@ -170,3 +170,80 @@ def canon_rows(ds):
     crow = tuple((bk.get(r[0], ("?", r[0])), rk[r[1]]) + tuple(r[2:]) for r in rows)
     cb = tuple((bk[k[0]],) + tuple(k[1:]) for k in bks)
     return (cb, crow)
+
+
+def id_shape(ds):
+    """Finite abstraction of the id allocator state that rank-renaming throws away:
+    for the sorted live ids, one bit per position saying whether there is a gap
+    before it (first id vs 0 / vs the previous id), plus one bit for a hidden
+    allocator counter above the largest live id (sqlite AUTOINCREMENT).
+    Two states with equal rank-renamed rows but different shapes are kept apart,
+    so an allocator that depends on absolute ids / list length / gaps is explored
+    from each shape (refinement only splits states: always sound)."""
+    rows = raw_rows(ds)
+    b = ds._verif_backend
+    if b == "memory":
+        out = []
+        for bid in ds.storage_strategy.db:
+            ids = sorted(r[1] for r in rows if r[0] == bid)
+            prev = -1
+            bits = []
+            for i in ids:
+                bits.append(1 if i - prev > 1 else 0)
+                prev = i
+            out.append((bid, tuple(bits)))
+        return tuple(out)
+    ids = sorted(r[1] for r in rows)
+    prev = 0
+    bits = []
+    for i in ids:
+        bits.append(1 if i - prev > 1 else 0)
+        prev = i
+    hidden = 0
+    if b == "sqlite":
+        r = ds.storage_strategy.conn.execute("SELECT seq FROM sqlite_sequence WHERE name = 'events'").fetchone()
+        if r and ids and r[0] > ids[-1]:
+            hidden = 1
+        elif r and not ids and r[0] > 0:
+            hidden = 1
+    return (tuple(bits), hidden)
+
+
+def canon_shaped(ds):
+    return (canon_rows(ds), id_shape(ds))
+
+
+def _plain(x, depth=0):
+    if isinstance(x, (str, int, float, bool, type(None))):
+        return x
+    if depth > 4:
+        return "..."
+    if isinstance(x, dict):
+        return tuple(sorted((repr(k), _plain(v, depth + 1)) for k, v in x.items()))
+    if isinstance(x, (set, frozenset)):
+        return tuple(sorted(repr(_plain(v, depth + 1)) for v in x))
+    if isinstance(x, (list, tuple)):
+        return tuple(_plain(v, depth + 1) for v in x)
+    return None  # connections, loggers, datetimes: not part of the canonical form
+
+
+def hidden_state(ds):
+    """Every plain attribute of the storage object and the Datastore handle cache
+    (anything a refactor might add: id->rowid caches, counters, memo dicts). It is
+    appended to canonical forms so that implementation state living outside the
+    tables splits states instead of being merged away."""
+    st = ds.storage_strategy
+    skip = {"db", "_metadata", "last_commit", "logger", "conn"}
+    d = dict(vars(st))
+    bk = d.get("bucket_keys")
+    if isinstance(bk, dict) and all(isinstance(v, int) for v in bk.values()):
+        # peewee's id -> row key cache: row keys grow without bound under alternating
+        # delete/create of two buckets; rank-rename like the tables themselves
+        rk = {v: n for n, v in enumerate(sorted(set(bk.values())))}
+        d["bucket_keys"] = {k: rk[v] for k, v in bk.items()}
+    items = tuple(sorted((k, _plain(v)) for k, v in d.items() if k not in skip))
+    return (items, tuple(sorted(ds.bucket_instances)))
+
+
+def canon_full(ds, shaped=False):
+    return (canon_rows(ds), id_shape(ds) if shaped else None, hidden_state(ds))
